@@ -130,6 +130,10 @@ func (c *Collection) StartDCPFeed(
 		// Register the feed with the collection for future notifications:
 		verifPoint("feed.registered")
 		c.bucket.mutex.Lock()
+		if c.bucket.closed || c.bucket.storeClosed.Load() {
+			c.bucket.mutex.Unlock()
+			return ErrBucketClosed // nobody would ever stop this feed
+		}
 		c.bucket.collectionFeeds[c.DataStoreNameImpl] = append(c.bucket.collectionFeeds[c.DataStoreNameImpl], feed)
 		c.bucket.mutex.Unlock()
 	}
